@@ -89,6 +89,10 @@ def run(ctx):
     chk.rule("R09.4", "partial(i) = partial_nth(i, 1); partial_nth(i, n) = partial_iter(repeat(i).take(n)); partial_iter(s) = partial_iter_relaxed(s, Error) - and the same for the _relaxed variants")
     chk.rule("R09.3", "every Ok return of the inner derivative is var_names_union(result, original).0")
     chk.rule("R09.5", "the Differentiate methods have one implementation (the provided ones): no expression type overrides them")
+    # the operators the rules build their results with go through DeepEx::new: a name that no longer occurs as a node survives
+    # only because the constructor merges the nested expressions' own lists
+    from rules import c04
+    c04.name_sources(chk, fb, "R09.6")
     from rules import c10 as _c10
     _c10.no_overrides(chk, fb, "R09.5", "expression::partial::Differentiate", {"partial", "partial_relaxed", "partial_nth", "partial_nth_relaxed", "partial_iter", "partial_iter_relaxed"},
                       "an own implementation bypasses the index validation and the funnel decided by R09.1-R09.4")
